@@ -98,6 +98,8 @@ TypeInput(x) ==
   /\ Len(x.qtab) >= 1 /\ (x.shape = "V" => Len(x.qtab) = 1)
   /\ Len(x.bmplan) = Len(x.qtab) /\ \A j \in 1..Len(x.qtab) : x.bmplan[j] \in Plans
   /\ x.nvd >= 1 /\ x.wf \in BOOLEAN /\ x.elcurve \in BOOLEAN
+  (* order in which the volume points (and, consistently, all per-volume inputs) are listed *)
+  /\ x.vorder \in {"asc", "desc", "shuffle"}
   (* all energies carry the constant offset x.shift: E0 = (E0 without offset) + shift *)
   /\ Len(x.e0base) = NT(x) /\ \A k \in 1..NT(x) : x.ptab[k].E0 = RAdd(x.e0base[k], x.shift)
   /\ \A k \in 1..NT(x) : IsRat(x.ptab[k].V0) /\ IsRat(x.ptab[k].E0) /\ IsRat(x.ptab[k].B0)
@@ -424,6 +426,14 @@ ReqFiles(x, o) ==
     /\ PublicAttr(x, f.attr) =>
           /\ f.fmtok
           /\ \A k \in 1..Len(f.trows) : k <= Len(AttrOf(o, f.attr)) => f.trows[k][2] = AttrOf(o, f.attr)[k]
+(* the result is a function of the SET of (volume, energies, free energies) tuples, not of   *)
+(* the order in which they are listed: for every listing order the rows that reach the fit   *)
+(* are the formal combinations of the (consistently ordered) inputs, and V0(T), G(T), B(T),  *)
+(* the thermal expansion are those of the generating parameters                              *)
+ReqOrderInvariance(x, o) ==
+  /\ ReqPerTemperatureElectronic(x, o) /\ ReqPhononUnit(x, o) /\ ReqPressureSign(x, o)
+  /\ ReqRecoverVolume(x, o) /\ ReqRecoverGibbs(x, o) /\ ReqRecoverBulk(x, o)
+  /\ ReqThermalExpansion(x, o)
 ReqUnits ==
   /\ CodePVUnit = ReqPVUnit /\ CodePhUnit = ReqPhUnit /\ CodeBulkUnit = ReqBulkUnit
   /\ CodeCpUnit = ReqCpUnit /\ CodeGruUnit = ReqGruUnit /\ CodeDsdvUnit = ReqDsdvUnit
@@ -448,6 +458,7 @@ InvPhononUnit == Done /\ InStatement(inp) => ReqPhononUnit(inp, Out)
 InvPressureSign == Done /\ InStatement(inp) => ReqPressureSign(inp, Out) /\ ReqNoSpuriousPV(inp, Out)
 InvRecovery == Done /\ InStatement(inp) => ReqRecoverVolume(inp, Out) /\ ReqRecoverGibbs(inp, Out) /\ ReqRecoverBulk(inp, Out)
 InvShiftInvariance == Done /\ InStatement(inp) => ReqShiftInvariance(inp, Out)
+InvOrderInvariance == Done /\ InStatement(inp) => ReqOrderInvariance(inp, Out)
 InvBulkModulusObject == Done /\ InStatement(inp) => ReqBulkModulusObject(inp, Out)
 InvThermalExpansion == Done /\ InStatement(inp) => ReqThermalExpansion(inp, Out)
 InvHeatCapacity == Done /\ InStatement(inp) => ReqHeatCapacity(inp, Out)
